@@ -702,6 +702,7 @@ type crashCheck struct {
 	gcOnly         bool
 	maxImages      int // 0 = default budget
 	profile        func() *genProfile
+	postGen        func(t *rapid.T, h *History) // optional adjustments of the generated case
 }
 
 func (cc *crashCheck) runCase(h *History) (r *histRunner, st *crashStats, err error) {
@@ -799,6 +800,9 @@ func (cc *crashCheck) check(t *testing.T) {
 		h := &History{}
 		h.Cfg = genCfg(t, p)
 		h.Ops = genOps(t, &h.Cfg, p)
+		if cc.postGen != nil {
+			cc.postGen(t, h)
+		}
 		verifkit.SetCurrent(cc.property, cc.name, h)
 		r, st, err := cc.runCase(h)
 		if err != nil && isInfra(err) {
@@ -838,6 +842,10 @@ var c07Crash = &crashCheck{
 		}
 		return p
 	},
+	// a third of the histories are wrapped into the situation of C03's resurrection template (a key in a short first file,
+	// deleted later, the tree rebuilt, a pass starting above file 0): "no deleted key reappears" is then at stake at every
+	// boundary of that pass
+	postGen: func(t *rapid.T, h *History) { c03GC.postGen(t, h) },
 }
 
 func TestVerif_C07_KillInGC(t *testing.T) { c07Crash.check(t) }
